@@ -29,6 +29,7 @@ Fixpoint lossy (l : list sop) (tr : list tstep) (ia ai : nat) : bool :=
     | SRestartA =>
       (* the initiator's last message of the step is its new Logon *)
       negb (Nat.eqb (ia + (oi - 1)) 0) || lossy l' tr' (Nat.min oi 1) 0
+    | SCfg _ _ => lossy l' tr' oi oa          (* the numbers are forced: what was in flight does not count *)
     | SBad => lossy l' tr' ia ai
     end
   | _, _ => false
